@@ -366,27 +366,44 @@ func checkAVCSlice(c avcSliceCase) *harness.Fail {
 	}
 	nalu, info := nalgen.SerializeAVCSlice(&c.Slice, sps, pps)
 	ctx := fmt.Sprintf("slice nalu %x, header %d bits, pps id %d -> sps id %d", nalu, info.HeaderBits, pps.P.PicParameterSetID, pps.P.SeqParameterSetID)
-	got, err := avc.ParseSliceHeader(nalu, spsMap, ppsMap)
-	if err != nil {
-		return harness.Failf("C15|avc.ParseSliceHeader|error on valid slice", "%v (%s)", err, ctx)
-	}
 	want := avcExpectedSlice(&c.Slice, pps, info)
-	g := *got
-	if st := uint32(want.SliceType) % 5; st != 1 {
-		// num_ref_idx_l1_active_minus1 is neither coded nor inferred for slices other than B: not judged
-		want.NumRefIdxL1ActiveMinus1, g.NumRefIdxL1ActiveMinus1 = 0, 0
+	judge := func(got *avc.SliceHeader, err error) *harness.Fail {
+		if err != nil {
+			return harness.Failf("C15|avc.ParseSliceHeader|error on valid slice", "%v (%s)", err, ctx)
+		}
+		want, g := want, *got
+		if st := uint32(want.SliceType) % 5; st != 1 {
+			// num_ref_idx_l1_active_minus1 is neither coded nor inferred for slices other than B: not judged
+			want.NumRefIdxL1ActiveMinus1, g.NumRefIdxL1ActiveMinus1 = 0, 0
+		}
+		// Size last: a wrong Size usually is the consequence of a wrong field which is the better diagnosis
+		ws, gs := want.Size, g.Size
+		want.Size, g.Size = 0, 0
+		if f := avcFieldFail("avc.SliceHeader", &want, &g, ctx); f != nil {
+			return f
+		}
+		if ws != gs {
+			return harness.Failf("C15|avc.SliceHeader.Size|differs from bytes occupied by the header",
+				"Size %d, the header occupies %d bytes (NAL header byte + %d header bits, emulation prevention included) (%s)", gs, ws, info.HeaderBits, ctx)
+		}
+		return nil
 	}
-	// Size last: a wrong Size usually is the consequence of a wrong field which is the better diagnosis
-	ws, gs := want.Size, g.Size
-	want.Size, g.Size = 0, 0
-	if f := avcFieldFail("avc.SliceHeader", &want, &g, ctx); f != nil {
-		return f
+	got, err := avc.ParseSliceHeader(nalu, spsMap, ppsMap)
+	f = judge(got, err)
+	if f != nil && pps.P.PicParameterSetID != pps.P.SeqParameterSetID {
+		// Root-cause probe: does the verdict change when the right SPS is (also) filed under the PPS's own id?
+		alt := map[uint32]*avc.SPS{}
+		for k, v := range spsMap {
+			alt[k] = v
+		}
+		alt[pps.P.PicParameterSetID] = spsMap[pps.P.SeqParameterSetID]
+		got2, err2 := avc.ParseSliceHeader(nalu, alt, ppsMap)
+		if f2 := judge(got2, err2); f2 == nil || f2.Key == "C15|avc.SliceHeader.SeqParamID|value differs" {
+			return harness.Failf("C15|avc.ParseSliceHeader|SPS looked up with pic_parameter_set_id instead of the PPS's seq_parameter_set_id",
+				"%s [the verdict disappears when the SPS %d is also stored under key %d of the SPS map]", f.Msg, pps.P.SeqParameterSetID, pps.P.PicParameterSetID)
+		}
 	}
-	if ws != gs {
-		return harness.Failf("C15|avc.SliceHeader.Size|differs from bytes occupied by the header",
-			"Size %d, the header occupies %d bytes (NAL header byte + %d header bits, emulation prevention included) (%s)", gs, ws, info.HeaderBits, ctx)
-	}
-	return nil
+	return f
 }
 
 func genAVCSliceCase(rt *rapid.T) avcSliceCase {
